@@ -18,7 +18,7 @@ from .. import units, guards, effects
 MANIFEST = {
     "level": "other",
     "technique": "static analysis: sibling comparison of the seven reductions by value numbering, dependence (slicing) of the returned direction on the light time, taint rule for the light-time-shifted epoch, partial evaluation of the minor-body routine per orbit regime, parity abstract interpretation (reflection about perihelion) of the near-parabolic and parabolic solvers, effect analysis, alias-retention rule for persistent stores (no class attribute / global keeps a caller's Epoch by reference), refusal path rule; the Angle / Epoch operator semantics the evaluator assumes are verified (operator conformance, operands never written)",
-    "text": "Decides for all epochs that the seven planetary reductions are the same computation, that the body is re-evaluated one light time earlier while the Earth stays at the query epoch, that the light-time shift never reaches the caller's Epoch object, and - as a necessary condition of the elongation clause - at which epoch the Sun is taken; for minor bodies that every orbit regime actually applies the light time and that the near-parabolic and parabolic solvers are symmetric about perihelion (true anomaly odd, radius even in the time from perihelion - a necessary condition of agreeing with the Kepler-based heliocentric position on both sides of perihelion). The Sun/Earth vector Pluto and the minor bodies are referred to is shown to keep no reference to a caller's mutable Epoch between calls (a memo keyed on the object would serve stale vectors once the caller re-uses it). Pointing accuracy and the elongation values are numerical and not decided.",
+    "text": "Decides for all epochs that the seven planetary reductions are the same computation, that the body is re-evaluated one light time earlier while the Earth stays at the query epoch, that the light-time shift never reaches the caller's Epoch object, and - as a necessary condition of the elongation clause - at which epoch the Sun is taken; for minor bodies that every orbit regime actually applies the light time and that the near-parabolic and parabolic solvers are symmetric about perihelion (true anomaly odd, radius even in the time from perihelion - a necessary condition of agreeing with the Kepler-based heliocentric position on both sides of perihelion). The Sun/Earth vector Pluto and the minor bodies are referred to is shown to keep no reference to a caller's mutable Epoch between calls (a memo keyed on the object would serve stale vectors once the caller re-uses it). Pointing accuracy and the elongation values are numerical and not decided. The Kepler solver the elliptic minor-body branch relies on is held to the anomaly-reduction and sign rules of C11 (every linear piece of the mean anomaly, either sign, any number of turns).",
     "note": "Trusted: light-time constant 0.0057755183 d/AU (family constant, must agree across members). Undecided: pointing within 0.02 / 1e-4 deg, elongation value, Mercury/Venus maxima.",
 }
 PLANETS = ["Mercury", "Venus", "Mars", "Jupiter", "Saturn", "Uranus", "Neptune"]
